@@ -9,6 +9,7 @@ the repaired design (`Alt`: the receive side stays enabled while a send waits).
 Helper lemmas: `P2/Lemmas/C21.lean`.
 -/
 import P2.Model.SyncSched
+import P2.Model.SyncFlush
 import P2.Lemmas.C21
 import P2.Lemmas.C21Core
 import P2.Extracted.C21
@@ -233,4 +234,101 @@ theorem c21_extracted_select_structure :
     P2.Extracted.C21.exitCond = "sync_done_received && sync_done_sent" :=
   ⟨rfl, rfl, rfl, rfl, rfl, rfl⟩
 
-end P2.C21
+/-! ## The sink adapter over a buffering transport (`LogSyncSink` + `FramedWrite`-like sink) -/
+
+namespace Flush
+
+/-- reachable states of the one-direction model -/
+def FInv (cfg : P2.Flush.Cfg) (st : P2.Flush.St) : Prop :=
+  st.s = st.b + st.q + st.r ∧ st.s ≤ cfg.total ∧ (cfg.bestEffort = false → st.w = false → st.b = 0)
+
+theorem finv_step (cfg : P2.Flush.Cfg) (st st' : P2.Flush.St) (a : P2.Flush.Act) (h : P2.Flush.step cfg st a = some st') (hi : FInv cfg st) :
+    FInv cfg st' := by
+  obtain ⟨s, b, q, r, w⟩ := st
+  obtain ⟨h1, h2, h3⟩ := hi
+  cases a <;> simp only [P2.Flush.step] at h <;> split at h <;> simp at h <;> subst h <;>
+    rename_i hc <;> simp at hc <;> simp only [FInv] at * <;>
+    first
+      | (refine ⟨by omega, by omega, ?_⟩; intro hb hw; simp_all)
+      | (refine ⟨by omega, by omega, ?_⟩; intro hb hw; have := h3 hb; simp_all; omega)
+
+theorem finv_run (cfg : P2.Flush.Cfg) (st st' : P2.Flush.St) (sched : List P2.Flush.Act) (h : P2.Flush.run cfg st sched = some st')
+    (hi : FInv cfg st) : FInv cfg st' := by
+  induction sched generalizing st with
+  | nil => simp [P2.Flush.run] at h; subst h; exact hi
+  | cons a rest ih =>
+    simp only [P2.Flush.run] at h
+    split at h
+    · simp at h
+    · rename_i st1 hs; exact ih st1 h (finv_step cfg st st1 a hs hi)
+
+end Flush
+
+/-- **Faithful adapter: a send resolves only when the transport's flush completed.**  In every
+    reachable state without a pending send the local buffer is empty: every message handed to the
+    sink is in the pipe or received (`s = q + r`) — which is what lets `SyncSched` treat the
+    transport as a channel with the pipe's capacity. -/
+theorem c21_flush_faithful_no_tail (cfg : P2.Flush.Cfg) (hf : cfg.bestEffort = false) (sched : List P2.Flush.Act)
+    (st : P2.Flush.St) (h : P2.Flush.run cfg P2.Flush.init sched = some st) (hw : st.w = false) :
+    st.b = 0 ∧ st.s = st.q + st.r := by
+  have hi := Flush.finv_run cfg _ st sched h (by simp [Flush.FInv, P2.Flush.init])
+  have hb := hi.2.2 hf hw
+  exact ⟨hb, by have := hi.1; omega⟩
+
+/-- … and then the receiver gets everything: with a pipe of capacity ≥ 1 and a high-water mark ≥ 1
+    a state without an enabled action has `r = total`. -/
+theorem c21_flush_faithful_delivers (cfg : P2.Flush.Cfg) (hf : cfg.bestEffort = false) (hc : 1 ≤ cfg.c)
+    (hh : 1 ≤ cfg.hw) (sched : List P2.Flush.Act) (st : P2.Flush.St)
+    (h : P2.Flush.run cfg P2.Flush.init sched = some st) (hs : P2.Flush.stuck cfg st = true) :
+    st.r = cfg.total := by
+  have hi := Flush.finv_run cfg _ st sched h (by simp [Flush.FInv, P2.Flush.init])
+  obtain ⟨s, b, q, r, w⟩ := st
+  obtain ⟨h1, h2, h3⟩ := hi
+  simp only [P2.Flush.stuck, List.all_cons, List.all_nil, Bool.and_true, Bool.and_eq_true, P2.Flush.step, hf,
+    Bool.false_or] at hs
+  obtain ⟨e1, e2, e3, e4⟩ := hs
+  have hq : q = 0 := by
+    by_cases hq : 0 < q
+    · simp [hq] at e4
+    · omega
+  cases w with
+  | true =>
+    by_cases hb : b = 0
+    · simp [hb] at e3
+    · have : 0 < b := by omega
+      simp [this, hq, hc] at e2
+      omega
+  | false =>
+    have hb := h3 hf rfl
+    simp only at hb h1 h2
+    by_cases hlt : s < cfg.total
+    · have : b < cfg.hw := by omega
+      simp [hlt, this] at e1
+    · simp only at *
+      omega
+
+/-- **Best-effort adapter (send resolves after polling the flush once): the tail is lost.**
+    Pipe of one message, two messages to send (think: the last operation and `Done`): the second
+    send resolves while its message is still in the local buffer; the sender has nothing more to
+    send, so nobody drives the transport again; the receiver has taken what was in the pipe and
+    waits forever for the rest. -/
+theorem c21_flush_best_effort_loses_tail :
+    let cfg : P2.Flush.Cfg := { c := 1, hw := 4, total := 2, bestEffort := true }
+    let st : P2.Flush.St := { s := 2, b := 1, q := 0, r := 1, w := false }
+    P2.Flush.run cfg P2.Flush.init [.enq, .push, .resolve, .enq, .resolve, .recv] = some st ∧
+    P2.Flush.stuck cfg st = true ∧ st.r < cfg.total := by decide
+
+/-- the same schedule is impossible with the faithful adapter (the second send cannot resolve) -/
+example : P2.Flush.run { c := 1, hw := 4, total := 2, bestEffort := false } P2.Flush.init
+    [.enq, .push, .resolve, .enq, .resolve, .recv] = none := by decide
+
+/-- `LogSyncSink` as `topic_log_sync.rs` reads *now* forwards all four sink operations to the
+    transport sink and returns the transport's poll result with only the error mapped — in
+    particular `poll_flush` propagates `Poll::Pending` (faithful adapter, `bestEffort = false`). -/
+theorem c21_extracted_sink_adapter :
+    P2.Extracted.C21.adapterPollReady = "this.inner .poll_ready(cx) .map_err(|err| TopicLogSyncChannelError::MessageSink(format!(\"{err:?}\")))" ∧
+    P2.Extracted.C21.adapterPollFlush = "this.inner .poll_flush(cx) .map_err(|err| TopicLogSyncChannelError::MessageSink(format!(\"{err:?}\")))" ∧
+    P2.Extracted.C21.adapterPollClose = "this.inner .poll_close(cx) .map_err(|err| TopicLogSyncChannelError::MessageSink(format!(\"{err:?}\")))" ∧
+    P2.Extracted.C21.adapterStartSend = "let msg = TopicLogSyncMessage::Sync(item); this.inner .start_send(msg) .map_err(|err| TopicLogSyncChannelError::MessageSink(format!(\"{err:?}\")))" :=
+  ⟨rfl, rfl, rfl, rfl⟩
+
